@@ -46,15 +46,32 @@ type step struct {
 }
 
 type scenario struct {
-	name  string
-	pfx   string
-	steps []step
+	name   string
+	pfx    string
+	steps  []step
+	labels []string // what the generator chose, for the evidence's distribution
 }
 
 type gen struct {
 	t   *rapid.T
 	n   int
 	now int64
+	rot map[string]int
+}
+
+// walk: stratified choice from a dictionary — the first use in a batch draws a starting point, later uses step through
+// the list, so that a batch with k uses covers k different entries (independent draws from a list of 25 leave a third of
+// it untouched in a quick run; the entries are the corpus, each should be used)
+func (g *gen) walk(xs []string, l string) string {
+	if g.rot == nil {
+		g.rot = map[string]int{}
+	}
+	i, ok := g.rot[l]
+	if !ok {
+		i = rapid.IntRange(0, len(xs)-1).Draw(g.t, l+".start")
+	}
+	g.rot[l] = i + 1
+	return xs[i%len(xs)]
 }
 
 func (g *gen) pick(xs []string, l string) string { return rapid.SampledFrom(xs).Draw(g.t, l) }
@@ -118,7 +135,11 @@ func ms(d int64) int64 { return time.Now().UnixMilli() + d }
 func (g *gen) next() scenario {
 	g.n++
 	pfx := fmt.Sprintf("s%d-", g.n)
-	switch rapid.IntRange(0, 11).Draw(g.t, "scenario") {
+	k := rapid.IntRange(0, 11).Draw(g.t, "scenario")
+	if only := os.Getenv("VERIF_C13_ONLY"); only != "" { // focused exploration of one scenario kind (development aid; not used by the registered commands)
+		k = map[string]int{"status-walk": 10, "mutated": 0, "tagged": 3, "registration": 4, "schedule": 6, "cursor": 8, "grpc": 9}[only]
+	}
+	switch k {
 	case 10, 11:
 		return g.statusWalk(pfx)
 	case 0, 1, 2:
@@ -276,13 +297,15 @@ func (g *gen) registration(pfx string) scenario {
 	sc.steps = append(sc.steps, step{HTTPReq: post("/promises", map[string]any{"id": p, "timeout": ms(g.pick1([]int64{300, 60000}, "ptimeout"))}, nil)})
 	sc.steps = append(sc.steps, step{HTTPReq: post("/promises", map[string]any{"id": r, "timeout": ms(60000)}, nil)})
 	var recv any
-	switch rapid.IntRange(0, 4).Draw(g.t, "recvshape") {
+	shape := rapid.IntRange(0, 4).Draw(g.t, "recvshape")
+	sc.labels = append(sc.labels, []string{"recv:dictionary-string", "recv:raw-json", "recv:typed-hostile", "recv:poll-hostile-address", "recv:http-plugin"}[shape])
+	switch shape {
 	case 4: // receivers the real http plugin has to deliver to: nothing listening, refused, unresolvable, odd urls and headers
-		recv = json.RawMessage(g.pick([]string{`{"type":"http","data":{"url":"http://127.0.0.1:1"}}`, `{"type":"http","data":{"url":"http://127.0.0.1:1/x","headers":{"a":"b"}}}`, `{"type":"http","data":{"url":"http://nowhere.invalid/"}}`, `{"type":"http","data":{"url":"https://127.0.0.1:1"}}`, `{"type":"http","data":{"url":"http://127.0.0.1:1","headers":{"a\nb":"c"}}}`, `{"type":"http","data":{"url":"http://[::1"}}`, `{"type":"http","data":{"url":"nope://x"}}`, `"http://127.0.0.1:1/y"`, `"https://nowhere.invalid"`}, "recvhttp"))
+		recv = json.RawMessage(g.walk([]string{`{"type":"http","data":{"url":"http://127.0.0.1:1"}}`, `{"type":"http","data":{"url":"http://127.0.0.1:1/x","headers":{"a":"b"}}}`, `{"type":"http","data":{"url":"http://nowhere.invalid/"}}`, `{"type":"http","data":{"url":"https://127.0.0.1:1"}}`, `{"type":"http","data":{"url":"http://127.0.0.1:1","headers":{"a\nb":"c"}}}`, `{"type":"http","data":{"url":"http://[::1"}}`, `{"type":"http","data":{"url":"nope://x"}}`, `"http://127.0.0.1:1/y"`, `"https://nowhere.invalid"`}, "recvhttp"))
 	case 0:
 		recv = g.hostile("recv")
 	case 1:
-		recv = json.RawMessage(g.pick([]string{"null", "1", "true", "[]", "{}", `{"type":"poll","data":null}`, `{"type":"poll"}`, `{"type":null,"data":null}`, `{"type":"http","data":{"url":"http://127.0.0.1:1"}}`, `{"type":"poll","data":{"group":"g","id":7}}`, `{"type":"nope","data":{}}`, `"default"`, `""`}, "recvraw"))
+		recv = json.RawMessage(g.walk([]string{"null", "1", "true", "[]", "{}", `{"type":"poll","data":null}`, `{"type":"poll"}`, `{"type":null,"data":null}`, `{"type":"http","data":{"url":"http://127.0.0.1:1"}}`, `{"type":"poll","data":{"group":"g","id":7}}`, `{"type":"nope","data":{}}`, `"default"`, `""`}, "recvraw"))
 	case 2:
 		recv = map[string]any{"type": g.hostile("rtype"), "data": json.RawMessage(g.pick([]string{"null", "{}", `{"group":"g"}`, `"x"`, "[1]"}, "rdata"))}
 	default:
@@ -490,27 +513,42 @@ func (g *gen) statusWalk(pfx string) scenario {
 // schedule: stored schedules with hostile templates, cron expressions and promise tags; they fire in the background.
 func (g *gen) schedule(pfx string) scenario {
 	sc := scenario{name: "schedule", pfx: pfx}
-	id := pfx + g.pick([]string{"sch", "a/b", "a<b&c", "{{.id}}", "é"}, "id")
-	tmpl := g.pick([]string{pfx + "{{.id}}.{{.timestamp}}", pfx + "fixed", "{{", "{{.x", "{{.id", "}}{{", `{{template "x"}}`, "{{.nope}}", "{{.id.x}}", "{{range .}}x{{end}}", "{{call .id}}", "{{printf \"%s\" .id}}", "{{index . \"id\"}}", pfx + "{{.timestamp}}", "", pfx + "{{/* c */}}x", "{{define \"t\"}}{{end}}", pfx + "{{len .}}", "{{html .id}}", "{{.id | js}}"}, "template")
-	cron := g.pick(crons, "cron")
-	if rapid.Bool().Draw(g.t, "firing") { // half of the schedules fire within the batch's wait: their stored template, tags and timeout get PROCESSED
-		cron = g.pick(firingCrons, "firingcron")
+	// one hostile dimension at a time (the others ordinary, so that the request is accepted and the stored value gets
+	// processed), or all of them together
+	focus := rapid.SampledFrom([]string{"cron", "template", "fields", "all"}).Draw(g.t, "focus")
+	sc.labels = append(sc.labels, "schedule-focus:"+focus)
+	id := pfx + "sch"
+	if focus == "fields" || focus == "all" {
+		id = pfx + g.pick([]string{"sch", "a/b", "a<b&c", "{{.id}}", "é"}, "id")
+	}
+	tmpl := pfx + "{{.id}}.{{.timestamp}}"
+	if focus == "template" || focus == "all" {
+		tmpl = g.walk([]string{pfx + "{{.id}}.{{.timestamp}}", pfx + "fixed", "{{", "{{.x", "{{.id", "}}{{", `{{template "x"}}`, "{{.nope}}", "{{.id.x}}", "{{range .}}x{{end}}", "{{call .id}}", "{{printf \"%s\" .id}}", "{{index . \"id\"}}", pfx + "{{.timestamp}}", "", pfx + "{{/* c */}}x", "{{define \"t\"}}{{end}}", pfx + "{{len .}}", "{{html .id}}", "{{.id | js}}"}, "template")
+	}
+	cron := g.pick(firingCrons, "firingcron") // fires within the batch's wait: the stored template, tags and timeout get PROCESSED
+	if focus == "cron" || (focus == "all" && rapid.Bool().Draw(g.t, "hostilecron")) {
+		cron = g.walk(crons, "cron")
 	}
 	ptags := map[string]any{}
-	if rapid.Bool().Draw(g.t, "routed") {
-		ptags["resonate:invoke"] = g.pick([]string{"poll://g/w", "default", `{"type":"poll","data":{"group":"g"}}`, "null", `{"type":"poll","data":null}`}, "ptagroute")
+	body := map[string]any{"id": id, "cron": cron, "promiseId": tmpl, "promiseTimeout": 300}
+	if focus == "fields" || focus == "all" {
+		if rapid.Bool().Draw(g.t, "routed") {
+			ptags["resonate:invoke"] = g.pick([]string{"poll://g/w", "default", `{"type":"poll","data":{"group":"g"}}`, "null", `{"type":"poll","data":null}`}, "ptagroute")
+		}
+		if rapid.IntRange(0, 3).Draw(g.t, "ptagtimeout") == 0 {
+			ptags["resonate:timeout"] = g.hostile("ptimeouttag")
+		}
+		body = map[string]any{"id": id, "desc": g.hostile("desc"), "cron": cron, "tags": map[string]any{"k": g.hostile("stag")}, "promiseId": tmpl, "promiseTimeout": g.pick1([]int64{0, 1, 300, -1, 1 << 62, -(1 << 62)}, "ptimeout"),
+			"promiseParam": map[string]any{"headers": map[string]any{"h": g.hostile("ph")}, "data": "eA=="}, "promiseTags": ptags}
 	}
-	if rapid.IntRange(0, 3).Draw(g.t, "ptagtimeout") == 0 {
-		ptags["resonate:timeout"] = g.hostile("ptimeouttag")
-	}
-	body := map[string]any{"id": id, "desc": g.hostile("desc"), "cron": cron, "tags": map[string]any{"k": g.hostile("stag")}, "promiseId": tmpl, "promiseTimeout": g.pick1([]int64{0, 1, 300, -1, 1 << 62, -(1 << 62)}, "ptimeout"),
-		"promiseParam": map[string]any{"headers": map[string]any{"h": g.hostile("ph")}, "data": "eA=="}, "promiseTags": ptags}
 	st := step{HTTPReq: post("/schedules", body, nil), mutation: fmt.Sprintf("cron=%q template=%q ptags=%v", cron, tmpl, ptags)}
 	if cron == "" || cron == "bad" || ((strings.HasPrefix(cron, "TZ=") || strings.HasPrefix(cron, "CRON_TZ=")) && !strings.Contains(cron, " ")) {
 		st.invalid, st.noTrace = true, true
 	}
 	sc.steps = append(sc.steps, st)
+	sc.labels = append(sc.labels, "cron:"+cron)
 	if rapid.IntRange(0, 2).Draw(g.t, "twin") == 0 {
+		sc.labels = append(sc.labels, "schedule-with-twin")
 		// a second schedule due in the same cycles whose promise id never changes: from its second firing on the promise
 		// already exists (the cycle's other outcome), next to whatever the first schedule's template does
 		sc.steps = append(sc.steps, step{HTTPReq: post("/schedules", map[string]any{"id": id + g.pick([]string{"-twin", "!", "0"}, "twinid"), "cron": g.pick(firingCrons, "twincron"), "promiseId": pfx + "twin-fixed", "promiseTimeout": 60000}, nil), mutation: "twin schedule with a constant promise id"})
@@ -712,6 +750,7 @@ func runBatch(dir string, scs []scenario, checkAnswers bool) outcome {
 	}
 	defer srv.Kill()
 	clients := srv.Grpc()
+	consecDropped := 0
 	for _, sc := range scs {
 		for _, st := range sc.steps {
 			if !srv.Alive() {
@@ -719,6 +758,7 @@ func runBatch(dir string, scs []scenario, checkAnswers bool) outcome {
 				return out
 			}
 			out.requests++
+			droppedBefore := len(out.dropped)
 			var before core.Snapshot
 			if checkAnswers && st.noTrace {
 				before, _ = srv.Snapshot()
@@ -758,6 +798,16 @@ func runBatch(dir string, scs []scenario, checkAnswers bool) outcome {
 						out.wrong = append(out.wrong, fmt.Sprintf("%s was answered %d %s (a client input must not produce a server error)", desc, res.Code, truncate(string(res.Body), 160)))
 					}
 				}
+			}
+			if len(out.dropped) > droppedBefore {
+				consecDropped++
+			} else {
+				consecDropped = 0
+			}
+			if consecDropped >= 3 && srv.Alive() {
+				// the kernel answers nothing any more: the rest of the batch would only add one time-out per request
+				out.wedged, out.log = true, "three consecutive requests were not answered, the last: "+out.dropped[len(out.dropped)-1]+"\n"+srv.LogTail(20)
+				return out
 			}
 			if st.mutation != "" && !clientErr {
 				out.nontriv = append(out.nontriv, st.Method+" "+strings.SplitN(st.Path, "?", 2)[0]+" "+st.mutation)
@@ -921,6 +971,9 @@ func TestC13(t *testing.T) {
 		}
 		for _, sc := range scs {
 			stats.Class("scenario:" + sc.name)
+			for _, l := range sc.labels {
+				stats.Class(l)
+			}
 		}
 		if out.bad() {
 			min := minimize(fmt.Sprintf("%s/min%d", dir, batch), scs)
